@@ -33,12 +33,15 @@ Qed.
 Lemma live_shadow c nb w e defer : Live c nb w (e_disk e) defer ->
   exists o, R o e (shenv e) /\ stale_tail o w (e_disk e) /\ stale_ok o (e_disk e) /\
             (o = None -> no_pend (e_disk e)) /\
-            (forall tw, st_tail w = Some tw -> o = Some (ws_name tw) -> wguard (e_disk e) (ws_name tw) (ws_off tw)).
+            (forall tw, st_tail w = Some tw -> o = Some (ws_name tw) -> wguard (e_disk e) (ws_name tw) (ws_off tw)) /\
+            (forall n, o = Some n -> exists t f p, n = name_of t /\ tail_info (st_segs w) = Some t /\
+               lookup n (dk_files (e_disk e)) = Some f /\ df_pend f = Some p /\ stale_batch c t f p defer).
 Proof.
   intros (HL & Hst). pose proof (LInv_NoDup_sh _ _ _ _ HL) as ND.
   destruct Hst as [Hn|(t & f & p & Ht & Hf & Hp & Hso & Hsb)].
   - exists None. split; [split; [apply drel_sh; [exact ND|apply stale_ok_nopend; exact Hn]|reflexivity]|].
-    split; [intros n K; discriminate|]. split; [apply stale_ok_nopend; exact Hn|]. split; [auto|]. intros tw _ K; discriminate.
+    split; [intros n K; discriminate|]. split; [apply stale_ok_nopend; exact Hn|]. split; [auto|].
+    split; [intros tw _ K; discriminate|intros n K; discriminate].
   - destruct (LInv_view _ _ _ _ HL) as (S & t' & f0 & tw & V).
     assert (t' = t). { rewrite (lv_segs _ _ _ _ _ _ _ _ V), tail_info_app in Ht. inversion Ht. reflexivity. } subst t'.
     assert (Hf0 : f0 = sh_file f).
@@ -51,8 +54,9 @@ Proof.
     split.
     { intros n K. inversion K; subst n. split; [rewrite Hf; discriminate|].
       exists t, tw. split; [exact Ht|]. split; [apply (lv_tail _ _ _ _ _ _ _ _ V)|]. split; [exact Tn|]. split; [reflexivity|exact Hgd]. }
-    split; [exact Hso|]. split; [discriminate|].
-    intros tw' Ht' K. rewrite (lv_tail _ _ _ _ _ _ _ _ V) in Ht'. inversion Ht'; subst tw'. rewrite Tn. exact Hgd.
+    split; [exact Hso|]. split; [discriminate|]. split.
+    { intros tw' Ht' K. rewrite (lv_tail _ _ _ _ _ _ _ _ V) in Ht'. inversion Ht'; subst tw'. rewrite Tn. exact Hgd. }
+    intros n K. inversion K; subst n. exists t, f, p. auto.
 Qed.
 
 Lemma drel_stale_ok o d dc : drel o d dc -> no_pend dc -> stale_ok o d.
@@ -347,7 +351,7 @@ Lemma live_store c nb w e nom alts defer ls :
 Proof.
   intros Hc Hok HF Hnb HLive Hrot Hsp Hin.
   pose proof HLive as (HL & _). pose proof (LInv_closed _ _ _ _ HL) as Hcl.
-  destruct (live_shadow c nb w e defer HLive) as (o & HR & Hst & Hso & Hon & Hg).
+  destruct (live_shadow c nb w e defer HLive) as (o & HR & Hst & Hso & Hon & Hg & _).
   set (ec := shenv e) in *. set (d := e_disk e) in *.
   destruct (store_logs_ok c nb w ec ls nom Hc HL eq_refl Hrot Hnb Hsp Hok HF) as (r0 & w0 & ec' & Hsl & Hres & HL' & Hsp' & Hext).
   destruct (store_logs c w ls e) as [[r w'] e'] eqn:Est. exists r, w', e'. split; [reflexivity|].
